@@ -208,7 +208,7 @@ def run(ctx):
            "traces_validated_against_impl": total_sc, "trace_events_validated": total_ev, "rejected_scenarios": nbad,
            "selftest_corruptions_rejected": nself, "libpcap": libpcap_used,
            "evaluations": total_sc, "distinct_nontrivial": total_sc,
-           "rule": "every scenario of PcapFileGen.tla within the bound (distinct by construction) x every cut offset 0..size x copying and zero-copy calls, plus seeded random files beyond the bound (up to 8 packets of up to 4097 bytes, option strings up to 1500 bytes)",
+           "rule": "every scenario of PcapFileGen.tla within the bound (distinct by construction) x every cut offset 0..size x copying and zero-copy calls, plus seeded random files beyond the bound (up to 8 packets of up to 4097 bytes, option strings up to 1500 bytes; jumbo pcapng scenarios carry option values of 65533..65535 octets)",
            "samples": samples, "exhaustive": not quick}
     cov.update(impl)
     vlib.write_evidence(PID, ctx.tier, ctx.seed, "model_checking", cov, time.time() - t0, len(V.violations), assumptions)
